@@ -10,10 +10,12 @@ Mk(n, never, b) ==
    fallible |-> FALSE, group |-> FALSE, never |-> never, x |-> -1, conts |-> <<"arr", "vec", "tup">>] @@ b
 
 CfgsQuick ==
+  {[reuse |-> TRUE] @@ Mk(2, <<>>, B(FALSE, 1, 1, 1, 0, 1, 0, FALSE, FALSE))} \cup
   {Mk(2, <<>>, B(FALSE, 1, 2, 2, 1, 1, 1, TRUE, TRUE)), Mk(3, <<>>, B(FALSE, 1, 1, 1, 1, 1, 1, FALSE, FALSE)),
    Mk(2, <<0>>, B(FALSE, 1, 1, 2, 1, 1, 1, FALSE, FALSE)), Mk(0, <<>>, B(FALSE, 1, 1, 1, 0, 0, 0, TRUE, FALSE)),
    Mk(1, <<>>, B(FALSE, 2, 2, 1, 1, 1, 1, TRUE, TRUE))}
 CfgsThorough ==
+  CfgsQuick \cup
   {Mk(3, nv, B(FALSE, 2, 2, 3, 1, 1, 2, TRUE, TRUE)) : nv \in {<<>>, <<1>>}} \cup {Mk(4, <<>>, B(FALSE, 1, 1, 2, 1, 1, 1, TRUE, FALSE))}
 CfgsGenQ ==
   {Mk(2, <<>>, B(TRUE, 1, 1, 1, 1, 1, 1, TRUE, TRUE)), Mk(0, <<>>, B(TRUE, 1, 1, 1, 0, 0, 0, TRUE, FALSE)),
